@@ -139,6 +139,12 @@ func (m *PartitionLeaseManager) Owns(topic string, partition int32) bool {
 	return m.lm.Owns(partitionResourceID(topic, partition))
 }
 
+// Generation returns how many times this broker has acquired the partition's
+// lease. It changes whenever the lease is (re)gained.
+func (m *PartitionLeaseManager) Generation(topic string, partition int32) uint64 {
+	return m.lm.Generation(partitionResourceID(topic, partition))
+}
+
 // Release explicitly gives up ownership of a single partition.
 func (m *PartitionLeaseManager) Release(topic string, partition int32) {
 	m.lm.Release(partitionResourceID(topic, partition))
